@@ -14,6 +14,7 @@ so the output equals the implementation's output iff model and code agree.
 import NV.Common.Proto
 import NV.C18.Model
 import NV.C18.Spec
+import NV.C18.OracleTests
 
 namespace NV.C18
 
@@ -244,13 +245,10 @@ def runJudge (body : List String) : List String :=
     | _ => none
   let has (w : String) := input.any fun l => l.startsWith w
   -- a case without its set-up lines is not an observation about C18 (keeps the shrinker honest)
-  let napply := (input.filter fun l => l.startsWith "apply ").length
-  let nload := (exps.filter fun e => e.phase == "load").length
-  -- every source file the records name must be written by the case itself
+  -- every source file the records name must be written by the case itself (the simul_efun object is part of the mudlib)
   let named := exps.flatMap fun e => [e.file, e.program] ++ e.trace.flatMap fun t => [t.file, t.prog]
-  let missing := named.any fun n => n != "" && !(has ("file /" ++ n ++ " "))
-  if missing || (has "load " && !has "file ") || (!exps.isEmpty && exps.length ≠ napply + nload) ||
-     (!exps.isEmpty && !(has "load " && has "file " && (has "apply " || exps.any fun e => e.phase == "load"))) then
+  let missing := named.any fun n => n != "" && !n.startsWith "c18/simul_efun" && !(has ("file /" ++ n ++ " "))
+  if missing || (has "load " && !has "file ") || (!exps.isEmpty && !has "load ") then
     ["bad setup incomplete-case"] else
   match judgeEv exps (impl.map parseObs) with
   | [] => ["ok"]
@@ -260,6 +258,9 @@ def main (mode : String) : IO Unit :=
   match mode with
   | "model" => serve runModel
   | "judge" => serve runJudge
+  | "selftest" =>
+    let bad := (OracleTests.tests.zipIdx.filter (fun p => !p.1)).map (·.2)
+    IO.println (if bad.isEmpty then s!"selftest ok {OracleTests.tests.length}" else s!"selftest FAILED {bad}")
   | _ => IO.eprintln s!"C18: unknown mode {mode}"
 
 end NV.C18
